@@ -53,13 +53,19 @@ class PathModel:
         """(q = squared obs distance, name of the matched point on the map, name of the matched point on the
         observations, ti term) for `state` at lattice position (obs, obs_ne)."""
         mp = self.mp
+
+        def oname(t):        # the name of the point actually observed at index t (a trace may repeat a point)
+            try:
+                return self.mt.path[t].name
+            except (AttributeError, IndexError, TypeError):
+                return f"o{t}"
         if obs_ne == 0:
-            o = f"o{obs}"
+            o = oname(obs)
             if isinstance(state, tuple):
                 k = key_ps(o, f"n{state[0]}", f"n{state[1]}")
                 return mp.q(k), "proj:" + k, o, E.lift(t_of(mp, k, f"n{state[0]}", f"n{state[1]}"))
             return mp.q(key_pp(o, f"n{state}")), f"n{state}", o, z3.RealVal(0)
-        o1, o2 = f"o{obs}", f"o{obs + 1}"
+        o1, o2 = oname(obs), oname(obs + 1)
         if isinstance(state, tuple):
             k = key_ss(f"n{state[0]}", f"n{state[1]}", o1, o2)
             return mp.q(k), "pf:" + k, "pt:" + k, E.lift(t_of(mp, "f:" + k, f"n{state[0]}", f"n{state[1]}"))
